@@ -556,6 +556,7 @@ class DeserializationMethodVisitor(
                 self.aliaser,
                 settings.errors.missing_property,
                 settings.errors.unexpected_property,
+                self.any().method,
             )
 
         return self._factory(factory, dict, validation=False)
